@@ -20,7 +20,12 @@ PickLayout == /\ stage = 0 /\ stage' = 2 /\ UNCHANGED <<R, a>>
               /\ \E g1 \in RandomSubset(8, Universe(R)) \cup RandomSubset(4, Spliced(R)), g2 \in RandomSubset(6, Universe(R)), g3 \in RandomSubset(5, Universe(R)) :
                     genes' = <<g1, g2, g3>>
               /\ q' \in RandomSubset(6, Universe(R))
-Next == PickLoc \/ PickSpliced \/ PickLayout
+(* one fixed layout besides the sampled ones, so that the negative control does not depend on the draw: the long gene [0,5)
+   shadows two short ones; a query at [3,4) touches only the long gene, which the bisect-and-early-exit shape never visits *)
+PickWitness == /\ stage = 0 /\ stage' = 2 /\ UNCHANGED <<R, a>>
+               /\ genes' = <<Simple(0, 5, 1), Simple(1, 2, 1), Simple(2, 3, 1)>>
+               /\ q' = Simple(3, 4, 1)
+Next == PickLoc \/ PickSpliced \/ PickLayout \/ PickWitness
 Spec == Init /\ [][Next]_vars
 
 WithinIsTouching == stage = 2 => Within(genes, q) \subseteq Touching(genes, q)
